@@ -319,7 +319,7 @@ func (p *polling) DoWrite(ctx *types.HttpContext, data types.BufferInterface, op
 		return
 	}
 
-	encoding := utils.Contains(ctx.Headers().Peek("Accept-Encoding"), []string{"gzip", "deflate", "br", "zstd"})
+	encoding := acceptedEncoding(ctx.Headers().Peek("Accept-Encoding"), []string{"gzip", "deflate", "br", "zstd"})
 	if encoding == "" {
 		respond(data, strconv.Itoa(data.Len()))
 		return
@@ -337,6 +337,31 @@ func (p *polling) DoWrite(ctx *types.HttpContext, data types.BufferInterface, op
 
 	headers.Set("Content-Encoding", encoding)
 	respond(buf, strconv.Itoa(buf.Len()))
+}
+
+// acceptedEncoding returns the first of the codings that the Accept-Encoding
+// header names as a token of its own with a non-zero quality value (a coding
+// that merely occurs as a substring, or is refused with q=0, is not accepted).
+func acceptedEncoding(header string, codings []string) string {
+	accepted := map[string]bool{}
+	for _, part := range strings.Split(header, ",") {
+		name, params, _ := strings.Cut(part, ";")
+		quality := 1.0
+		for _, param := range strings.Split(params, ";") {
+			if k, v, ok := strings.Cut(param, "="); ok && strings.EqualFold(strings.TrimSpace(k), "q") {
+				if q, err := strconv.ParseFloat(strings.TrimSpace(v), 64); err == nil {
+					quality = q
+				}
+			}
+		}
+		accepted[strings.ToLower(strings.TrimSpace(name))] = quality > 0
+	}
+	for _, coding := range codings {
+		if accepted[coding] {
+			return coding
+		}
+	}
+	return ""
 }
 
 // Compresses data.
